@@ -206,13 +206,18 @@ def gauss_cases(ctx, n_cases):
     for it in range(n_cases):
         n = rng.randint(1, 5 if ctx.tier == "quick" else 7)
         N, M, mean = rand_nm_state(rng, n)
-        g = GaussianModes(n)
+        from strawberryfields.backends.gaussianbackend.backend import GaussianBackend
+        be = GaussianBackend()
+        be.begin_circuit(n)
+        g = be.circuit
+        spec_ok = True
         g.nmat = np.array([[complex(float(a), float(b)) for a, b in row] for row in N], dtype=complex).reshape(n, n)
         g.mmat = np.array([[complex(float(a), float(b)) for a, b in row] for row in M], dtype=complex).reshape(n, n)
         g.mean = np.array([complex(float(a), float(b)) for a, b in mean], dtype=complex)
         ops, names = [], []
         for _ in range(rng.randint(1, 6)):
-            kinds = ["squeeze", "phase", "displace", "loss", "thermalLoss", "initThermal"] + (["bs", "bs"] if n >= 2 else [])
+            kinds = ["squeeze", "phase", "displace", "loss", "thermalLoss", "initThermal", "fromCov", "applyU"] + \
+                (["bs", "bs"] if n >= 2 else [])
             kind = rng.choice(kinds)
             k = rng.randrange(n)
             names.append(kind)
@@ -245,11 +250,36 @@ def gauss_cases(ctx, n_cases):
                 nbar = rng.choice([Fraction(0), Fraction(1, 2), Fraction(2)])
                 ops.append(dict(op="thermalLoss", q=fr(q), add=fr((1 - q * q) * nbar), k=k))
                 g.thermal_loss(float(q * q), float(nbar), k)
+            elif kind == "fromCov":      # GaussianBackend.prepare_gaussian_state(r, V, modes): mode list in any order
+                kk = rng.randint(1, min(3, n))
+                modes = rng.sample(range(n), kk)
+                qq = lambda: Fraction(rng.randint(-6, 6), rng.choice([1, 2, 4]))
+                S1 = [[qq() for _ in range(kk)] for _ in range(kk)]
+                S2 = [[qq() for _ in range(kk)] for _ in range(kk)]
+                A = [[S1[i][j] + S1[j][i] for j in range(kk)] for i in range(kk)]
+                C = [[S2[i][j] + S2[j][i] for j in range(kk)] for i in range(kk)]
+                B = [[qq() for _ in range(kk)] for _ in range(kk)]
+                rx = [qq() for _ in range(kk)]
+                rp = [qq() for _ in range(kk)]
+                ops.append(dict(op="fromCov", modes=modes, A=[[fr(x) for x in r] for r in A], B=[[fr(x) for x in r] for r in B],
+                                C=[[fr(x) for x in r] for r in C], rx=[fr(x) for x in rx], rp=[fr(x) for x in rp], k=modes[0]))
+                f = lambda M: np.array([[float(x) for x in r] for r in M])
+                V = np.block([[f(A), f(B)], [f(B).T, f(C)]])
+                be.prepare_gaussian_state(np.array([float(x) for x in rx + rp]), V, modes)
+                spec_ok = False
+            elif kind == "applyU":       # GaussianBackend.passive(T, modes): T_expand[ix_(modes, modes)] = T, then apply_u
+                kk = rng.randint(1, min(3, n))
+                modes = rng.sample(range(n), kk)
+                qq = lambda: Fraction(rng.randint(-4, 4), rng.choice([1, 2]))
+                T = [[(qq(), qq()) for _ in range(kk)] for _ in range(kk)]
+                ops.append(dict(op="applyU", modes=modes, T=[[[fr(a), fr(b)] for a, b in r] for r in T], k=modes[0]))
+                be.passive(np.array([[complex(float(a), float(b)) for a, b in r] for r in T]), modes)
+                spec_ok = False
             else:
                 pop = rng.choice([Fraction(0), Fraction(1, 4), Fraction(3)])
                 ops.append(dict(op="initThermal", pop=fr(pop), k=k))
                 g.init_thermal(float(pop), k)
-        req = {"op": "gauss.run", "n": n, "spec": True,
+        req = {"op": "gauss.run", "n": n, "spec": spec_ok,
                "N": [[[fr(a), fr(b)] for a, b in row] for row in N],
                "M": [[[fr(a), fr(b)] for a, b in row] for row in M],
                "mean": [[fr(a), fr(b)] for a, b in mean], "ops": ops}
@@ -296,7 +326,7 @@ def run_gauss_corr(ctx, n_cases):
         d2 = max(np.max(np.abs(V - Vm)), np.max(np.abs(mu - mum)))
         if d2 > 1e-9 * max(1.0, float(np.max(np.abs(Vm)))):
             ctx.disagree("GaussNM toXP vs scovmatxp/smeanxp", case, str(Vm), str(V))
-        if model.get("specAgrees") is not True:
+        if "specAgrees" in model and model.get("specAgrees") is not True:
             # the proved refinement evaluated on this instance (a cross-check of the theorem's reading)
             ctx.disagree("GaussNM refinement instance (model internal)", case, model.get("specAgrees"), True)
 
